@@ -233,7 +233,7 @@ UNITS["serde"] = {
             subst=[("RangeProof < T >", "RangeProof < P >")]),
         text("spec/canaries_codec.rs"),
     ],
-    "safety": {"*": ["C15"]},
+    "safety": {"*": ["C15", "C16"]},
 }
 
 # ---------------------------------------------------------------- U15-U16: prover
